@@ -62,8 +62,17 @@ func refLiteral(b []byte) (neg bool, mant int64, exp int, ok bool) {
 // value is m truncated to prec+1 significant digits; destination prefix preserved.
 func VerifAppendFloatInt() {
 	lim := int64(vParam("LIM", 100))
-	m := vInt64("m")
-	vAssume(m != 0 && -lim < m && m < lim)
+	var m int64
+	if vParam("CONC", 0) != 0 {
+		// concrete sweep over m (the FP theory does not get through prec >= 2 within the budget)
+		m = int64(vRange("m", int(-lim+1), int(lim-1)))
+		if m == 0 {
+			return
+		}
+	} else {
+		m = vInt64("m")
+		vAssume(m != 0 && -lim < m && m < lim)
+	}
 	prec := vRange("prec", vParam("PMIN", 0), vParam("PMAX", 1))
 	p0 := vByte("p0")
 	out := AppendFloat([]byte{p0}, float64(m), prec)
